@@ -27,6 +27,10 @@ def install_process_environment(penv):
         _time.tzset()
     if penv.get("cwd"):
         os.chdir(penv["cwd"])
+    if penv.get("cpu_count"):
+        os.cpu_count = lambda: penv["cpu_count"]
+        if hasattr(os, "sched_getaffinity"):
+            os.sched_getaffinity = lambda pid=0: set(range(penv["cpu_count"]))
     state = {"now": float(penv["epoch"]), "tick": float(penv["tick"])}
     real_localtime, real_gmtime, real_strftime = _time.localtime, _time.gmtime, _time.strftime
     real_ctime, real_asctime = _time.ctime, _time.asctime
